@@ -308,6 +308,9 @@ def run_cases(cfg, seed, ncases, tier, tag, log, only=None, release=False):
                 cases.append(json.loads(line))
             except ValueError:
                 cases.append({"raw": line.strip()})
+    if cfg["bin"] != props.PROPS[cfg["id"]]["bin"]:
+        for c in cases:   # a case of an extra binary says so (replays)
+            c["bin"] = cfg["bin"]
     bykey = {(c.get("shard"), c.get("pos")): c for c in cases}
     failing = []
     for k, pos, code in fails:
@@ -369,12 +372,14 @@ def main():
     notes = []
 
     only = None
+    only_bin = None
     if replay:
         r = json.load(open(replay))
         seed = r.get("seed", seed)
         tier = r.get("tier", tier)
         if isinstance(r.get("case"), dict) and "index" in r["case"]:
             only = r["case"]["index"]
+            only_bin = r["case"].get("bin")
 
     # 1. lint
     hits = lint()
@@ -423,12 +428,28 @@ def main():
             if os.path.exists(cp) and only is None:
                 for n_c, ent in enumerate(json.load(open(cp))):
                     runs.append(run_cases(cfg, ent["seed"], ent["cases"], ent["tier"], "corpus%d" % n_c, log, only=ent["index"]))
-            r = run_cases(cfg, seed, ncases, tier, tier, log, only=only)
-            runs.append(r)
+            if only is not None and only_bin not in (None, cfg["bin"]):
+                r = dict(error="replay of another binary")  # (not reported: see the extra_bins loop)
+            else:
+                r = run_cases(cfg, seed, ncases, tier, tier, log, only=only)
+                runs.append(r)
             if tier == "thorough" and cfg.get("release_too") and "error" not in r:
                 ok2, _ = cargo_build(cfg, log, release=True)
                 if ok2:
                     runs.append(run_cases(cfg, seed + 7919, max(1, ncases // 2), tier, tier + "-rel", log, release=True))
+            # optional further harness binaries of the same property (`extra_bins` in the property's PROP: a list of
+            # dict(bin=..., cases=dict(quick=..., thorough=...))): built and run like the main one, their cases are judged
+            # by the same verdict rules (their run module must be listed in the property's run_targets); a replay of a
+            # case of an extra binary (its JSON carries "bin") runs that binary only
+            for xb in cfg.get("extra_bins", []):
+                if only is not None and only_bin != xb["bin"]:
+                    continue
+                xcfg = dict(cfg, bin=xb["bin"])
+                okx, outx = cargo_build(xcfg, log)
+                if not okx:
+                    broken.append("harness %s does not build against /repo: %s" % (xb["bin"], first_error(outx)))
+                else:
+                    runs.append(run_cases(xcfg, seed, xb["cases"][tier], tier, tier + "-" + xb["bin"], log, only=only))
             # quick tier: a smaller batch against the release build (debug_assert! off, overflow wraps), for the
             # properties whose configuration asks for it -- some defects only exist without debug assertions
             if tier == "quick" and cfg.get("release_quick") and "error" not in r and only is None:
